@@ -707,6 +707,47 @@ def _left_assoc(ctx, visitor, rel) -> list[Inst]:
     that folds the operands of visitExpr / visitParts the value accumulated so far must become the 'lhs' of the next
     node and the freshly visited operand its 'rhs'.  Decided part: which of the two keys receives a loop-carried name."""
     insts = []
+    # (j') a binary node built outside a loop (`a ^ b`): 'lhs' is the EARLIER child, 'rhs' the later one.  Position of
+    # an operand: children[i] / xs[i] -> i ; xs.pop(0) -> from the front ; xs.pop() -> from the BACK (the first pop()
+    # yields the last child).
+    for f in visitor.methods.values():
+        sides = {}
+        npop = {'front': 0, 'back': 0}
+        for n in own_nodes(f.node):
+            if isinstance(n, (ast.For, ast.While)):
+                continue
+        stmts = [n for n in own_nodes(f.node) if isinstance(n, ast.Assign) and isinstance(n.targets[0], ast.Subscript)
+                 and isinstance(n.targets[0].slice, ast.Constant) and n.targets[0].slice.value in ('lhs', 'rhs')]
+        in_loop = {id(x) for lp in own_nodes(f.node) if isinstance(lp, (ast.For, ast.While)) for x in ast.walk(lp)}
+        stmts = sorted([n for n in stmts if id(n) not in in_loop], key=lambda n: (n.lineno, n.col_offset))
+        for n in stmts:
+            pos = None
+            for x in ast.walk(n.value):
+                if isinstance(x, ast.Subscript) and isinstance(x.slice, ast.Constant) and isinstance(x.slice.value, int):
+                    pos = ('idx', x.slice.value)
+                if isinstance(x, ast.Call) and isinstance(x.func, ast.Attribute) and x.func.attr == 'pop':
+                    if x.args and isinstance(x.args[0], ast.Constant) and x.args[0].value == 0:
+                        pos = ('idx', npop['front'])
+                        npop['front'] += 1
+                    elif not x.args:
+                        pos = ('back', npop['back'])
+                        npop['back'] += 1
+            if pos is not None:
+                sides[n.targets[0].slice.value] = (pos, n)
+        if 'lhs' in sides and 'rhs' in sides:
+            (pl, nl), (pr, nr) = sides['lhs'], sides['rhs']
+            construct = f'(j) {f.name}: lhs is the earlier child, rhs the later one'
+            bad = (pl[0] == 'idx' and pr[0] == 'idx' and pl[1] > pr[1]) or \
+                  (pl[0] == 'back' and pr[0] == 'back' and pl[1] < pr[1]) or \
+                  (pl[0] == 'back' and pr[0] == 'idx')
+            if bad:
+                insts.append(Inst(
+                    RULE, f.short, construct, 'violation',
+                    msg=(f"'{stmt_text(nl, 60)}' takes the LATER child for the left operand and '{stmt_text(nr, 60)}' the "
+                         f"earlier one (pop() without an index yields the last element first): `a ^ b` compiles to b ^ a"),
+                    file=rel, line=nl.lineno, props=PROPS))
+            else:
+                insts.append(Inst(RULE, f.short, construct, 'ok', file=rel, line=nl.lineno, props=PROPS))
     for vname in ('visitExpr', 'visitParts'):
         f = visitor.methods.get(vname)
         if f is None:
